@@ -11,10 +11,16 @@
 //!   * control factor 0: a static-fee twin pool (same ledger, same layout, same swaps) ends with the same amounts, price,
 //!     liquidity, fee growth, protocol fees and tick data;
 //!   * separate finite scenario: swaps before `trade_enable_timestamp` fail with TradeIsNotEnabled, at/after it succeed.
+//! The alphabet also contains the REAL `set_adaptive_fee_constants` (fee authority re-tunes the pool between swaps: lower /
+//! higher maximum, other periods, reduction factor, control factor, tick group size, threshold, back to the original set), so
+//! the histories include "constants changed while the stored variables are non-zero". In EVERY reached state the stored
+//! accumulator and reference are <= the CURRENTLY configured maximum; a successful change stores exactly the requested
+//! constants (the handler also resets the variables; that is observed and counted, not demanded), so that the swaps after it are charged from the new
+//! constants and a fresh reference (the per-swap oracle above runs on whatever constants / group size are stored).
 //! Part B (Engine B): `c14_fn` (function level), reference model: `c14_ref`.
 use super::c14_fn;
 use super::c14_ref::{self as rf, RefClass, RC, RV};
-use super::c14_world::{self as aw, AOp, AStepped, AfConsts, AfSpec, AfWorld, Tgt};
+use super::c14_world::{self as aw, AOp, AStepped, AfConsts, AfSpec, AfWorld, CSet, Tgt};
 use crate::decode;
 use crate::explore::{self, Limits, Model};
 use crate::ops;
@@ -67,7 +73,35 @@ fn sw(a_to_b: bool, exact_in: bool, amount: u64, tgt: Tgt, v2: bool) -> AOp {
     AOp::Swap { a_to_b, exact_in, amount, tgt, v2 }
 }
 
-fn alphabet(c: &AfConsts) -> Vec<AOp> {
+/// `set_adaptive_fee_constants` calls of the alphabet, as a function of the constants the pool was created with.
+/// Every one yields valid constants for tick spacing 64 in every combination the search reaches (the only refusals on the
+/// unchanged tree are AdaptiveFeeConstantsUnchanged; per-world outcome counts are in the coverage).
+/// `twin`: the control-factor-0 world keeps its control factor (its oracle is the static-fee twin).
+fn retunes(c: &AfConsts, twin: bool) -> Vec<(&'static str, CSet)> {
+    let other_group = match c.group {
+        16 => 64,
+        64 => 16,
+        _ => 4,
+    };
+    let (f2, d2) = if c.filter >= 4 { (c.filter / 2, c.decay / 2) } else { (c.filter * 2, c.decay * 2) };
+    let mut v = vec![
+        // one group's worth: below every accumulator / reference the swaps of the alphabet build up
+        ("lower-max", CSet { max_acc: Some(10_000), ..CSet::default() }),
+        ("raise-max", CSet { max_acc: Some(c.max_acc + 30_000), ..CSet::default() }),
+        ("periods", CSet { filter: Some(f2), decay: Some(d2), ..CSet::default() }),
+        ("reduction", CSet { reduction: Some(if c.reduction == 0 { 5000 } else { 0 }), ..CSet::default() }),
+        ("group-size", CSet { group: Some(other_group), ..CSet::default() }),
+        ("threshold", CSet { threshold: Some(if c.threshold > 4 { c.threshold / 4 } else { c.threshold * 4 }), ..CSet::default() }),
+        // everything at once, back to the constants of the tier (fails with AdaptiveFeeConstantsUnchanged while nothing was changed)
+        ("original", CSet::all(c)),
+    ];
+    if !twin {
+        v.push(("control", CSet { control: Some(if c.control == 0 { 1500 } else { 0 }), ..CSet::default() }));
+    }
+    v
+}
+
+fn alphabet(c: &AfConsts, twin: bool) -> Vec<AOp> {
     let mut a = vec![];
     for a_to_b in [true, false] {
         a.push(sw(a_to_b, true, 1_000, Tgt::None, false)); // inside one tick group
@@ -86,17 +120,23 @@ fn alphabet(c: &AfConsts) -> Vec<AOp> {
     for c in clocks {
         a.push(AOp::Clock(c));
     }
+    for (_, cs) in retunes(c, twin) {
+        a.push(AOp::SetConsts(cs));
+    }
     a
 }
 
-fn roots(c: &AfConsts) -> Vec<(&'static str, Vec<AOp>)> {
+fn roots(c: &AfConsts, twin: bool) -> Vec<(&'static str, Vec<AOp>)> {
     let f = c.filter as i64;
+    let group_size = retunes(c, twin).into_iter().find(|x| x.0 == "group-size").unwrap().1;
     let mut v = vec![
         ("fresh", vec![]),
         ("mid-group", vec![sw(false, true, HUGE, Tgt::Mid(2), true), AOp::Clock(f)]),
         // price exactly on the initialized tick -256 after a downward crossing: tick_current = -257
         ("shifted", vec![sw(true, true, HUGE, Tgt::Tick(-256), false)]),
         ("saturated-decayed", vec![sw(false, true, HUGE, Tgt::Tick(400), true), AOp::Clock(f), sw(true, true, 1_000, Tgt::None, false)]),
+        // the fee authority changed the tick group size after some volatility was recorded; new history in the new group size
+        ("regrouped", vec![sw(false, true, HUGE, Tgt::Mid(2), true), AOp::SetConsts(group_size), sw(true, true, HUGE, Tgt::Mid(3), false), AOp::Clock(f)]),
     ];
     if (c.filter as i64) * 140 > 3600 && c.filter > 1 && c.filter <= 60 {
         // "keep the fee high" scenario the one-hour rule exists for: major swaps less than a filter period apart
@@ -131,7 +171,7 @@ fn run_prefix(m: &C14Model, l: &Ledger, seq: &[AOp]) -> Result<Ledger, (Vec<AOp>
 
 fn build_roots(m: &C14Model, l: &Ledger, only: Option<&str>) -> Result<Vec<(String, Ledger)>, (Vec<AOp>, String)> {
     let mut rs = vec![];
-    for (name, seq) in roots(&m.w.consts) {
+    for (name, seq) in roots(&m.w.consts, m.w.twin.is_some()) {
         if only.map(|o| o != name).unwrap_or(false) {
             continue;
         }
@@ -172,6 +212,17 @@ pub struct AStats {
     pub shifted_starts: u64,
     pub v1_swaps: u64,
     pub v2_swaps: u64,
+    pub retunes: u64,
+    pub retunes_refused: u64,
+    pub retune_with_accumulator: u64,
+    pub retune_with_reference: u64,
+    pub retune_max_below_accumulator: u64,
+    pub retune_max_below_reference: u64,
+    pub retune_group_kept_with_history: u64,
+    pub retune_group_changed_with_history: u64,
+    pub swaps_after_retune: u64,
+    pub swaps_after_group_change: u64,
+    pub retune_left_history: u64,
 }
 impl AStats {
     fn merge(&mut self, o: &AStats) {
@@ -179,7 +230,9 @@ impl AStats {
         m!(
             swaps, steps, traded_steps, adaptive_steps, saturated_steps, hard_limit_steps, skipped_traded_steps, skipped_multi_group_steps, non_skipped_steps,
             zero_liquidity_steps, null_steps, zero_move_fee_steps, boundary_endings, stored_lower_neighbour, stored_upper_neighbour, class_unchanged, class_decayed, class_reset, class_forced,
-            class_forced_overriding, major_set, major_not_set, twin_compared, twin_both_failed, shifted_starts, v1_swaps, v2_swaps
+            class_forced_overriding, major_set, major_not_set, twin_compared, twin_both_failed, shifted_starts, v1_swaps, v2_swaps, retunes, retunes_refused,
+            retune_with_accumulator, retune_with_reference, retune_max_below_accumulator, retune_max_below_reference, retune_group_kept_with_history,
+            retune_group_changed_with_history, swaps_after_retune, swaps_after_group_change, retune_left_history
         );
     }
 }
@@ -194,6 +247,9 @@ fn rc_of(o: &decode::Oracle) -> RC {
         group: o.tick_group_size as i64,
         threshold: o.major_swap_threshold_ticks,
     }
+}
+fn rc_of_consts(c: &AfConsts) -> RC {
+    RC { filter: c.filter as u64, decay: c.decay as u64, reduction: c.reduction as u64, control: c.control as u64, max_acc: c.max_acc as u64, group: c.group as i64, threshold: c.threshold }
 }
 fn rv_of(o: &decode::Oracle) -> RV {
     RV { lru: o.last_reference_update_timestamp, lms: o.last_major_swap_timestamp, vref: o.volatility_reference as u64, gref: o.tick_group_index_reference as i64, acc: o.volatility_accumulator as u64 }
@@ -221,6 +277,9 @@ pub fn swap_oracle(pre: &Ledger, st: &AStepped, w: &AfWorld, a_to_b: bool, s: &m
         return Err("machinery: H2 trace does not connect the stored pre/post prices".into());
     }
     s.swaps += 1;
+    let created_with = rc_of_consts(&w.consts);
+    s.swaps_after_retune += (c != created_with) as u64;
+    s.swaps_after_group_change += (c.group != created_with.group) as u64;
     s.shifted_starts += (aw::price_of_tick(p0.tick_current_index as i64 + 1) == p0.sqrt_price) as u64;
     let mut memo: BTreeMap<i64, (u64, u64)> = BTreeMap::new();
     let mut rate_of = |g: i64| *memo.entry(g).or_insert_with(|| {
@@ -324,6 +383,50 @@ pub fn swap_oracle(pre: &Ledger, st: &AStepped, w: &AfWorld, a_to_b: bool, s: &m
     Ok(())
 }
 
+/// `set_adaptive_fee_constants` (successful). What the statement needs from it: afterwards the pool is configured with
+/// exactly the requested constants (they are "the configured maximum / periods / factors" every later swap is judged by),
+/// and the variables are in the documented state after a change of constants — reset (handler + instruction docs: "avoid
+/// invoking this instruction when a pool's adaptive fee is high"), i.e. the next swap starts from reference 0 in its own
+/// group as on a fresh pool. (The bound accumulator / reference <= maximum is the state invariant `check_state`.)
+fn retune_oracle(pre: &Ledger, st: &AStepped, w: &AfWorld, cs: &CSet, s: &mut AStats) -> Result<(), String> {
+    let post = &st.ledger;
+    let (o0, o1) = (decode::oracle(pre.data(&w.pool.oracle)), decode::oracle(post.data(&w.pool.oracle)));
+    let before = aw::stored_consts(pre, w);
+    let want = cs.merged(&before);
+    let got = aw::stored_consts(post, w);
+    if got != want {
+        return Err(format!("set_adaptive_fee_constants({cs:?}) on {before:?} succeeded but the oracle now stores {got:?}, requested {want:?}"));
+    }
+    if o1.trade_enable_timestamp != o0.trade_enable_timestamp || o1.whirlpool != o0.whirlpool {
+        return Err("set_adaptive_fee_constants changed the oracle's trade-enable timestamp / pool link".into());
+    }
+    if pre.data(&w.pool.addr) != post.data(&w.pool.addr) {
+        return Err("set_adaptive_fee_constants changed the pool account".into());
+    }
+    let (v0, v1) = (rv_of(&o0), rv_of(&o1));
+    let history = v0.acc > 0 || v0.vref > 0;
+    s.retunes += 1;
+    s.retune_with_accumulator += (v0.acc > 0) as u64;
+    s.retune_with_reference += (v0.vref > 0) as u64;
+    s.retune_max_below_accumulator += (v0.acc > want.max_acc as u64) as u64;
+    s.retune_max_below_reference += (v0.vref > want.max_acc as u64) as u64;
+    s.retune_group_kept_with_history += (history && want.group == before.group) as u64;
+    s.retune_group_changed_with_history += (history && want.group != before.group) as u64;
+    if v1.acc > want.max_acc as u64 || v1.vref > want.max_acc as u64 {
+        return Err(format!(
+            "after set_adaptive_fee_constants({cs:?}) the stored accumulator {} / reference {} exceed the configured maximum {} (variables before the change: {v0:?})",
+            v1.acc, v1.vref, want.max_acc
+        ));
+    }
+    // The handler resets the variables on every change. The statement does not demand that (only the bound above and, for
+    // every later swap, consistency with whatever is stored), so a different choice is counted, not reported.
+    let reset = RV { lru: 0, lms: 0, vref: 0, gref: 0, acc: 0 };
+    if v1 != reset {
+        s.retune_left_history += 1;
+    }
+    Ok(())
+}
+
 /// control factor 0: the static-fee twin received the same swap in the same ledger.
 fn twin_oracle(pre: &Ledger, st: &AStepped, w: &AfWorld, s: &mut AStats) -> Result<(), String> {
     let (t, tw) = match (&w.twin, &w.trader_twin) {
@@ -369,7 +472,15 @@ pub struct C14Model<'a> {
 }
 impl<'a> C14Model<'a> {
     fn new(w: &'a AfWorld) -> Self {
-        C14Model { w, alphabet: alphabet(&w.consts), stats: Mutex::new(AStats::default()), outcomes: Mutex::new(BTreeMap::new()) }
+        Self::with(w, true)
+    }
+    /// `retune = false`: swaps and clock steps only (the deeper second pass of the thorough tier)
+    fn with(w: &'a AfWorld, retune: bool) -> Self {
+        let mut alphabet = alphabet(&w.consts, w.twin.is_some());
+        if !retune {
+            alphabet.retain(|o| !matches!(o, AOp::SetConsts(_)));
+        }
+        C14Model { w, alphabet, stats: Mutex::new(AStats::default()), outcomes: Mutex::new(BTreeMap::new()) }
     }
     fn count(&self, k: String) {
         *self.outcomes.lock().unwrap().entry(k).or_insert(0) += 1;
@@ -389,6 +500,19 @@ impl<'a> Model for C14Model<'a> {
         match op {
             AOp::Clock(_) => {
                 self.count("clock:ok".into());
+                Ok(Some(st.ledger))
+            }
+            AOp::SetConsts(cs) => {
+                self.count(format!("set_consts:{}", st.outcome.short()));
+                if !st.outcome.ok() {
+                    // refused (invalid for this pool / nothing changed): nothing happened, not a new state
+                    self.stats.lock().unwrap().retunes_refused += 1;
+                    return Ok(None);
+                }
+                let mut local = AStats::default();
+                let res = retune_oracle(s, &st, self.w, cs, &mut local);
+                self.stats.lock().unwrap().merge(&local);
+                res?;
                 Ok(Some(st.ledger))
             }
             AOp::Swap { a_to_b, v2, .. } => {
@@ -496,16 +620,23 @@ pub fn run(ctx: &Ctx) -> Report {
     r.guard("trade_enable_swaps_checked", te);
 
     // ---- Part A ----
+    // quick: one pass, full alphabet (swaps, clock steps, set_adaptive_fee_constants), depth 3.
+    // thorough: the full alphabet to depth 4, then swaps + clock steps only to depth 5 (the same roots, which include a
+    // pool whose group size was changed); both passes share one wall cap so that the tier stays within its time limit.
     let ss = specs(!ctx.tier.is_quick());
-    let max_depth = ctx.pick(3, 5);
+    let passes: Vec<(&str, bool, usize)> = if ctx.tier.is_quick() { vec![("all-ops", true, 3)] } else { vec![("all-ops", true, 4), ("swaps-and-clocks", false, 5)] };
+    let runs: Vec<(&AfSpec, &str, bool, usize)> = passes.iter().flat_map(|p| ss.iter().map(move |s| (s, p.0, p.1, p.2))).collect();
+    let part_a_cap = ctx.left().min(ctx.pick(150.0, 780.0));
+    let t_a = ctx.elapsed();
     let mut total = AStats::default();
-    let n = ss.len() as f64;
-    for (i, s) in ss.iter().enumerate() {
+    let n = runs.len() as f64;
+    for (i, (s, pass, retune, max_depth)) in runs.iter().enumerate() {
+        let (pass, max_depth) = (*pass, *max_depth);
         if !r.violations.is_empty() {
             break;
         }
         let (l0, w) = aw::build(s);
-        let m = C14Model::new(&w);
+        let m = C14Model::with(&w, *retune);
         let named = match build_roots(&m, &l0, None) {
             Ok(x) => x,
             Err((ops, detail)) => {
@@ -517,7 +648,7 @@ pub fn run(ctx: &Ctx) -> Report {
             }
         };
         let roots: Vec<Ledger> = named.iter().map(|x| x.1.clone()).collect();
-        let share = (ctx.left() * 0.95 / (n - i as f64)).max(2.0);
+        let share = ((part_a_cap - (ctx.elapsed() - t_a)) * 0.95 / (n - i as f64)).max(2.0);
         let lim = Limits { max_depth, budget_s: share, max_states: 40_000_000 };
         let (stats, found) = explore::explore(&m, &roots, &lim);
         if let Some(f) = found {
@@ -531,12 +662,13 @@ pub fn run(ctx: &Ctx) -> Report {
         let outcomes = m.outcomes.lock().unwrap().clone();
         let e = r.coverage.entry("worlds".to_string()).or_insert_with(|| json!([]));
         e.as_array_mut().unwrap().push(json!({
-            "world": s.label, "constants": serde_json::to_value(s.consts).unwrap(), "roots": named.iter().map(|x| x.0.clone()).collect::<Vec<_>>(),
+            "world": s.label, "pass": pass, "constants": serde_json::to_value(s.consts).unwrap(), "roots": named.iter().map(|x| x.0.clone()).collect::<Vec<_>>(),
             "alphabet_size": m.alphabet.len(), "depth_completed": stats.depth_completed, "depth_partial": stats.depth_partial, "cap_hit": stats.cap_hit, "per_depth": per, "outcomes": outcomes,
         }));
-        let cur = r.coverage.get("depth_completed").and_then(|v| v.as_u64());
+        let key = if *retune { "depth_completed" } else { "depth_completed_swaps_and_clocks_only" };
+        let cur = r.coverage.get(key).and_then(|v| v.as_u64());
         let d = stats.depth_completed as u64;
-        r.set("depth_completed", match cur { Some(c) => c.min(d), None => d });
+        r.set(key, match cur { Some(c) => c.min(d), None => d });
         if stats.cap_hit.is_some() {
             r.set("caps_hit", true);
         }
@@ -570,6 +702,17 @@ pub fn run(ctx: &Ctx) -> Report {
     r.guard("major_swap_set", total.major_set);
     r.guard("major_swap_not_set", total.major_not_set);
     r.guard("control_factor_zero_twin_compared", total.twin_compared);
+    r.guard("constants_changed", total.retunes);
+    r.set("constants_change_refused", total.retunes_refused);
+    r.set("constants_changed_variables_not_reset_(observed,_not_demanded)", total.retune_left_history);
+    r.guard("constants_changed_with_nonzero_accumulator", total.retune_with_accumulator);
+    r.guard("constants_changed_with_nonzero_reference", total.retune_with_reference);
+    r.guard("constants_changed_new_max_below_stored_accumulator", total.retune_max_below_accumulator);
+    r.guard("constants_changed_new_max_below_stored_reference", total.retune_max_below_reference);
+    r.guard("constants_changed_group_size_kept_with_history", total.retune_group_kept_with_history);
+    r.guard("constants_changed_group_size_changed_with_history", total.retune_group_changed_with_history);
+    r.guard("swaps_on_changed_constants", total.swaps_after_retune);
+    r.guard("swaps_on_changed_group_size", total.swaps_after_group_change);
     let rule = r.coverage.get("fn_rule").cloned().unwrap_or(Value::Null);
     r.set("rule", rule);
     r.set("exhaustive", false);
